@@ -8,7 +8,9 @@ def share : ShareFacts :=
   { assignCopies := true,
     multiTemps := true,
     multiDefineTemps := true,           -- since 3e30c22 (was F21: the multi-define branch stored sequentially)
-    multiDefineRedeclAssigns := false,  -- every name is re-allocated, redeclared or not (finding F04-5)
+    multiDefineRedeclAssigns := true,   -- since 8bd8040 / 6ebc898 (was F04-5): cfg.go marks a named variable redeclared by a `:=`
+                                        -- (`!sc.global && n.kind == defineStmt && dest.ident != "_"`), assign keeps its cell
+    multiDefineRedeclCopies := true,    -- … `if redeclare { v := reflect.New(..).Elem(); v.Set(t[i]); t[i] = v }`
     defineFresh := true,
     callCopiesArgs := true,
     rangeSnapshotsArray := true,
@@ -19,28 +21,35 @@ def share : ShareFacts :=
     structLitSetsSlot := true,          -- doComposite: `getFrame(f, l).data[frameIndex] = a`
     structLitAssignSets := true,        -- since 3590fb8: `case n.anc.kind == assignStmt: d.Set(a)`
     arrayLitSets := true,
+    arrayLitFresh := true,              -- since 1436613 (was F04-4, F04-11): `value := genValueLit(n)` allocates a new cell per evaluation
+    arrayLitAssignInPlace := true,      -- … `if n.anc.kind == assignStmt { return valueGenerator(n, n.findex) }`
     lookup2OnlyIfValid := false,        -- since 6b8d7ae the zero value is stored for a missing key
-    appendArgsAreSlots := true }
+    lookup2DefineFresh := true,         -- since 5a404d3 (was F04-12): `dest := genValueDefine(n.anc.child[0])`, same for the status
+    lookup2RedeclInPlace := true,       -- … `if n.anc.kind != defineXStmt || n.redeclared || n.ident == "_" { return genValue(n) }`
+    appendArgsAreSlots := false,        -- since b312e89 (was F04-6): operands copied into a fresh slice, then reflect.AppendSlice
+    derefNilPanics := true }            -- since 93fb945 (was F04-10): `if !r.IsValid() { _ = *nilPtr }`
 
 /-- fingerprints (extract/common FuncHash) of the functions Model/Share.lean was transcribed from -/
 def sourceHashes : List (String × String) :=
-  [("assign", "cba47e3270d77930"),
+  [("assign", "bc12620dcf6fb973"),
    ("assignFromCall", "68cf8ed8c8ebe68c"),
    ("addr", "bebc2c833afadc2f"),
-   ("deref", "5f8bcb6331f999cc"),
+   ("deref", "8f80a1442107d364"),
    ("getIndexArray", "e067901410b4a4f2"),
    ("getIndexMap", "0b8ebf5d3a7abe7c"),
-   ("getIndexMap2", "b8eb27fd4a7debef"),
-   ("getFunc", "e1777a5459c1a52e"),
+   ("getIndexMap2", "60df9da4e7e6a59a"),
+   ("getFunc", "767f1bf470b0d0fd"),
    ("getIndexSeq", "c66a0fd6057b0616"),
    ("getPtrIndexSeq", "6be9b51311dc6a9e"),
-   ("arrayLit", "f508bcc568dd484a"),
-   ("mapLit", "8770c40d9f4ba94a"),
+   ("arrayLit", "3fbd1dfe2ea8205b"),
+   ("mapLit", "3846e3b67d9fd287"),
+   ("genValueLit", "23846498d2edfdda"),
+   ("genValueDefine", "7c0f83aa46790e55"),
    ("doComposite", "cc9a326983ac6414"),
    ("_range", "981bda182a8cb10c"),
    ("loopVarKey", "850d1ef64799110f"),
    ("loopVarVal", "fcbafb1e09580702"),
-   ("_append", "b266259424f65ba0"),
+   ("_append", "c34b81801c49e707"),
    ("appendSlice", "c67551dae27bed57"),
    ("_copy", "071999c49adb327a"),
    ("_delete", "3814292d45cb5cab"),
@@ -50,6 +59,8 @@ def sourceHashes : List (String × String) :=
    ("genValueRangeArray", "85bb294bc9e6c2d8"),
    ("genValueArray", "7423f6a50d5d826f"),
    ("genDestValue", "6d332c89aa45b5ab"),
-   ("cfg.go: case assignStmt, defineStmt", "0c8b7850eef24aa0")]
+   ("cfg.go: case assignStmt, defineStmt", "2b7bcb2f42e23fe8"),
+   ("cfg.go: rangeStmt, case ptrT", "be6b2770d36e6ffe"),
+   ("typecheck.go: addressExpr", "a310c42048108f3c")]
 
 end YaegiVerif.Expected.C04
